@@ -1,6 +1,53 @@
+import os
+
 import engine_check
+import vlib
+
+
+def states_stage(ctx):
+    """change_states< S... > / change_action_and_states< A, S... > with 1-2 new and 0-3 outer states: not in the shared
+    harness / engine model (one state only there).  Implementation-side oracle: harness/c13_states.cpp logs which states
+    every action and every success() is handed and compares with the scoping rule (new states inside, outer states
+    outside, success( in, new..., outer... ) once iff matched and actions enabled, nothing left alive)."""
+    exe = vlib.build_cpp([os.path.join(vlib.VERIF, "harness", "c13_states.cpp")], "c13_states", flags=["-O0"])
+    rc, out = vlib.sh([exe], timeout=300)
+    done = [l for l in out.split("\n") if l.startswith("DONE ")]
+    if rc != 0 or not done:
+        ctx.violation("c13 states stage crashed", "harness/c13_states.cpp ended abnormally: " + out[-400:], {"stage": "states"})
+        return
+    n = int(done[0].split()[1])
+    seen = set()
+    for l in [l for l in out.split("\n") if l.startswith("BAD ")]:
+        what, _, where = l[4:].partition(" | ")
+        fam = where.split(" input ")[0]
+        sig = "multi-state switch: %s [%s]" % (what.split(":")[0][:80], " ".join(fam.split()[:1]))
+        if sig in seen:
+            continue
+        seen.add(sig)
+        ctx.violation(sig, l[4:600], {"stage": "states", "line": l[:1500]})
+    ctx.cover(evaluations=n, distinct=n, validated=0, multi_state_cases=n)
+
+
 def run(ctx):
     engine_check.run(ctx, "C13")
+    states_stage(ctx)
+
 
 def replay(j):
+    if (j.get("replay") or {}).get("stage") == "states":
+        class _C:
+            def __init__(self):
+                self.v = []
+
+            def violation(self, sig, what, rp):
+                self.v.append(what)
+
+            def cover(self, **k):
+                pass
+        c = _C()
+        states_stage(c)
+        for w in c.v[:6]:
+            print("REPLAY:", w[:300])
+        print("REPLAY: VIOLATION reproduced" if c.v else "REPLAY: not reproduced on the current tree")
+        return 1 if c.v else 0
     return engine_check.replay(j)
